@@ -13,33 +13,33 @@ TRUST = "Trusted: Verus/Z3 (and Kani/CBMC where used); the assumed contracts of 
 def claim(what, notcov, ref):
     return dict(text="Kernel proof: " + what + " " + KERNEL + ".", note=TRUST + "Not covered: " + notcov, technique=TECH, ref=ref)
 CLAIMS = {
- "C01": claim("the MIP-03 decision of is_better_candidate equals the strict lexicographic order (timestamp, id) with irreflexivity/asymmetry/transitivity/totality lemmas; every MLS merge in process_commit and the own-pending path is preceded by a rollback snapshot recording exactly this epoch, event id and timestamp; the rollback path of handle_processing_error runs rollback -> invalidate(> epoch) -> mark-retryable -> notify -> reprocess, and only if the candidate is better.",
-              "convergence over delivery schedules, group sizes, fork chains; OpenMLS state equality; the find-by-epoch closure.", "DESIGN.md §3 C01"),
- "C02": claim("process_application_message stores exactly the decrypted rumor's fields with state Processed and the MLS epoch, one message + one dedup record per call; own-echo state machine Created->Processed; the past-epoch window of the NIP-44 fallback is exactly [cur-L, cur-1], newest first.",
-              "exactly-once under arbitrary interleavings; OpenMLS ratchet windows.", "DESIGN.md §3 C02"),
- "C03": claim("after a merge that removes the local member the group record becomes Inactive and no exporter secret is exported and no metadata sync happens; exporter/sync callees carry the precondition 'still a member'; the NIP-44 lookback never reaches beyond L past epochs nor a future epoch; a group becomes Active only in accept_welcome.",
+ "C01": claim("the MIP-03 decision of is_better_candidate equals the strict lexicographic order (timestamp, id) with irreflexivity/asymmetry/transitivity/totality lemmas, and it is taken against the snapshot of exactly the candidate's epoch; every MLS merge in process_commit and the own-pending path is preceded by a rollback snapshot recording exactly this epoch, event id and timestamp; a rejected commit leaves no snapshot behind; only a commit message can raise the wrong-epoch error that enters the MIP-03 path; the rollback path of handle_processing_error consults MIP-03 with this event, and runs rollback -> invalidate(> epoch) -> mark-retryable -> notify -> reprocess only if the candidate is better; the in-memory back end invalidates exactly records of strictly later epochs and its group snapshot / restore closures select exactly this group's rows.",
+              "convergence over delivery schedules, group sizes, fork chains; OpenMLS state equality; the SQLite back end's snapshot / invalidation SQL; MDK::merge_pending_commit takes no snapshot (known finding F4).", "DESIGN.md §3 C01, §8"),
+ "C02": claim("process_application_message and create_message store exactly the rumor's fields with the epoch the message was sent in, one message + one dedup record per call; own-echo state machine Created->Processed; the past-epoch window of the NIP-44 fallback is exactly [cur-L, cur-1], newest first; the configured out-of-order / forward-distance windows reach OpenMLS unchanged on create and join; a rollback to epoch E invalidates (memory back end) exactly the messages of epochs > E.",
+              "exactly-once under arbitrary interleavings; OpenMLS ratchet windows; SQLite UPDATE statements.", "DESIGN.md §3 C02, §8"),
+ "C03": claim("after a merge that removes the local member the group record becomes Inactive and no exporter secret is exported and no metadata sync happens; exporter/sync call sites carry the precondition 'still a member'; the NIP-44 lookback never reaches beyond L past epochs nor a future epoch; a group becomes Active only in accept_welcome; remove_members selects every leaf of each named identity and nothing else.",
               "confidentiality itself (MLS + NIP-44 cryptography are uninterpreted), membership histories.", "DESIGN.md §3 C03"),
- "C04": claim("the author check precedes every message write; the stored pubkey is the authenticated sender; the stored id is checked against the NIP-01 hash of the stored fields.",
-              "OpenMLS replay protection; storage upsert semantics.", "DESIGN.md §3 C04"),
- "C05": claim("authorization decision table of validate_commit_authorization; both validators succeed before the snapshot and the merge; a rejected commit leaves the world unchanged; proposal triage (auto-commit iff self-remove and receiver admin; proposals never merge); admin gate before any MLS mutation in add/remove/update.",
-              "is_pure_self_update_commit (iterator closures over OpenMLS objects); OpenMLS commit construction.", "DESIGN.md §3 C05"),
- "C06": claim("absence of overflow / out-of-bounds / failed-unwrap panics in every extracted function for all inputs (implicit obligations of each unit); refusal paths write nothing but the failure record.",
-              "panic-freedom of the parsers behind the shims (TLS codec, serde, base64, OpenMLS) for all byte strings.", "DESIGN.md §3 C06"),
- "C07": claim("dedup step of process_message: Failed/EpochInvalidated return with no write; a commit is never better than itself (MIP-03 irreflexive); own-echo on Processed/ProcessedCommit writes no message state.",
+ "C04": claim("the author check precedes every message write; the stored pubkey is the authenticated sender (the credential of the MLS message itself); the stored id is the NIP-01 hash of the stored fields on the receiving and on the sending side.",
+              "OpenMLS replay protection; storage upsert semantics in the SQLite back end.", "DESIGN.md §3 C04"),
+ "C05": claim("authorization decision table of validate_commit_authorization incl. the pure-self-update whitelist (closure contracts); identity checks of commits and proposals; both validators succeed before the snapshot and the merge; a rejected commit leaves the world unchanged; proposal triage (auto-commit iff self-remove and receiver admin; proposals never merge); admin gate before any MLS mutation in add/remove/update, which name exactly their arguments.",
+              "OpenMLS commit construction; admin operations sweep the whole proposal store (known finding F5, four call sites).", "DESIGN.md §3 C05"),
+ "C06": claim("absence of overflow / out-of-bounds / failed-unwrap panics in every extracted function for all inputs (implicit obligations of each unit); refusal paths write nothing but the failure record; every input check of process_welcome precedes its first write; a commit whose new group data is undecodable is refused before the merge.",
+              "panic-freedom of string / closure based validators (key-package tags, imeta) and of the parsers behind the shims (TLS codec, serde, base64, OpenMLS); two known findings (F10 refused leave proposal stays queued, F12 commit taking another group's nostr id).", "DESIGN.md §3 C06, §8"),
+ "C07": claim("dedup step of process_message: Failed/EpochInvalidated return with no write; a commit is never better than itself (MIP-03 irreflexive) and a stale proposal / application message never enters the MIP-03 comparison; own-echo on Processed/ProcessedCommit writes no message state; a rejected commit leaves no snapshot.",
               "re-delivery after arbitrary intermediate histories.", "DESIGN.md §3 C07"),
- "C08": claim("sync_group_metadata_from_mls copies epoch, name, description, admins, image fields, nostr group id and relays from the MLS state and nothing else; every merge site is followed by a sync before Ok.",
-              "'after every API call' over all histories; back-end index maintenance; routing lookup.", "DESIGN.md §3 C08"),
- "C15": claim("group-data extension from_raw accepts exactly the fixed field lengths and version != 0, as_raw encodes None as empty (Kani), round-trip lemma over the two contracts; key-package parse order; ContentEncoding accepts only base64 and has no default.",
-              "string-level tag grammar, TLS codec of tls_codec/OpenMLS, imeta text format.", "DESIGN.md §3 C15"),
- "C16": claim("re-processing a processed welcome returns the stored one and writes nothing; a failed one is refused; preview failure writes only the Failed record; Pending after process, Active + self-update Required only after accept, Inactive after decline.",
-              "joiner/inviter MLS state equality (OpenMLS).", "DESIGN.md §3 C16"),
- "C17": claim("HKDF context and AAD byte layouts; injectivity lemma for NUL-free mime/filename; decrypt returns bytes only after the SHA-256 check; scheme-version whitelist.",
-              "AEAD/HKDF/SHA-256 themselves (uninterpreted); epoch-hint lookup over histories.", "DESIGN.md §3 C17"),
- "C18": dict(text="Proof of the per-call kernels of C18 on the real code: both comparators equal the documented lexicographic orders for all inputs (Kani function contracts, complete), the last-message pointer update is max(old,new) under the display order with a full frame condition, page-window arithmetic never overflows and yields exactly the slice [min(off,n), min(off+lim,n)) of the sorted list, consecutive pages partition the list (lemma), limits outside 1..=10000 are refused in both back ends (Verus on functions / fragments extracted each run). " + KERNEL + ".",
-             note=TRUST + "Not covered: SQL ORDER BY/LIMIT/OFFSET, std sort_by, the pointer after rollbacks (history).",
+ "C08": claim("sync_group_metadata_from_mls copies epoch, name, description, admins, image fields, nostr group id and relays from the MLS state and nothing else; every merge site is followed by a sync before Ok; the in-memory save_group keeps the nostr-id index exact.",
+              "'after every API call' over all histories; SQLite unique index; routing lookup; known finding F12.", "DESIGN.md §3 C08"),
+ "C15": claim("group-data extension from_raw accepts exactly the fixed field lengths and version != 0 and copies every field; deserialize rejects trailing bytes; key-package parse order (kind, tags, content, identity binding); h-tag: exactly one tag of 64 hex characters; ContentEncoding accepts only an explicit recognised tag and has no default.",
+              "as_raw (the encoding half: no round-trip claim); string-level tag grammar inside validate_key_package_tags, TLS codec of tls_codec/OpenMLS, imeta text format.", "DESIGN.md §3 C15, §8.2"),
+ "C16": claim("re-processing a processed welcome returns the stored one and writes nothing; a failed one is refused; preview failure writes only the Failed record; Pending after process, Active + self-update Required only after accept, Inactive after decline; welcome and dedup record saved together; nothing is written before the last input check.",
+              "joiner/inviter MLS state equality (OpenMLS); known finding F3 (a welcome overwrites an Active group's record).", "DESIGN.md §3 C16"),
+ "C17": claim("HKDF context and AAD byte layouts; injectivity lemma for NUL-free mime/filename; upload binds key, AAD and published metadata to the same canonical fields; decrypt returns bytes only after the SHA-256 check; scheme-version whitelist; the epoch hint stored with a message is the epoch the message was sent in (sender and receiver).",
+              "AEAD/HKDF/SHA-256 themselves (uninterpreted); the epoch-hint lookup by tag content (string search).", "DESIGN.md §3 C17"),
+ "C18": dict(text="Proof of the per-call kernels of C18 on the real code: both key comparators equal the documented lexicographic orders for all inputs (Kani function contracts, complete) and the two Message comparators apply them to (self, other); the last-message pointer update is max(old,new) under the display order with a full frame condition; page-window arithmetic never overflows and yields exactly the slice [min(off,n), min(off+lim,n)) of the sorted list, consecutive pages partition the list (lemma), limits outside 1..=10000 are refused in both back ends; the SQLite save_group binds each last-message column to its field (Verus on functions / fragments extracted each run). " + KERNEL + ".",
+             note=TRUST + "Not covered: SQL text (ORDER BY/LIMIT/OFFSET, upsert column lists), std sort_by, the pointer after rollbacks (history).",
              technique=TECH, ref="DESIGN.md §3 C18"),
- "C20": claim("prune loops of EpochSnapshotManager (create_snapshot, ensure_hydrated): for every queue length and every retention value, afterwards len <= retention, survivors are the most recent suffix in order, every dropped entry was handed to release_group_snapshot and nothing else was released; termination.",
-              "how the queue is obtained from the Mutex<HashMap>; rollback_to_epoch's release loop (iterator adapter); back-end side of release/prune; restarts.", "DESIGN.md §3 C20"),
+ "C20": claim("prune loops of EpochSnapshotManager (create_snapshot, ensure_hydrated) and the release loop of rollback_to_epoch: for every queue length and every retention value, afterwards len <= retention, survivors are the most recent suffix in order, every dropped / superseded entry was handed to release_group_snapshot and nothing else was released; termination; the builder passes the configured retention and prunes with now - ttl (saturating).",
+              "how the queue is obtained from the Mutex<HashMap>; back-end side of release / prune / re-insert (SQL); restarts.", "DESIGN.md §3 C20"),
 }
 NA = {
  "C09": "rollback restore is SQL statements / HashMap::retain closures behind parking_lot: no function contract within reach of Verus or Kani (DESIGN §4)",
